@@ -6,7 +6,8 @@
             order = (path ...) ; queries = ((m qual dotted) ...)  -- ctx given by identity m ++ qual
    answer   (oof anomaly objs results)
             objs    = ((path id kind amap baseobj? state) ...)
-            results = ((ctxpath expand resolved? spec?) ...), resolved = (path id kind), spec = (tag m q)
+            results = ((ctxpath expand resolved? spec? guard) ...), resolved = (path id kind), spec = (tag m q),
+                      guard = trail_ok (the name is inside the guard of C04_expand_sound)
    request  (1 mpath is_pkg level modname)  ->  (model? spec?)   relative-import arithmetic only *)
 From Coq Require Import ZArith NArith List Bool.
 From PydoctorVerif Require Import Base.Sexp Base.ImportSyntax Model.Names Spec.PyImport.
@@ -73,8 +74,8 @@ Definition run (s : sexp) : sexp :=
                L [of_path (o_path ctx); of_path (expand_name st ctx dotted);
                   of_option (fun o => L [of_path (o_path o); of_path (o_id o); kind_code (o_kind o)])
                             (resolve_name st ctx dotted);
-                  spec]
-             | None => L [L []; L []; L []; spec]
+                  spec; of_bool (trail_ok st ctx true dotted)]
+             | None => L [L []; L []; L []; spec; of_bool false]
              end) (to_list (nth_s 3 s)) in
     L [of_bool (oof st); of_bool (anomaly st); L (map obj_sexp (objs st)); L results]
   | 1%Z =>
